@@ -981,7 +981,8 @@ class TestResult(unittest.TestResult):
         self.options.output.test_success(test, t)
 
     def addSkip(self, test, reason):
-        if not hasattr(self, "_test_state"):
+        started = hasattr(self, "_test_state")
+        if not started:
             # ``startTest`` was not called -- set up extected state
             self._test_state = test.__dict__
             # ``stopTest`` will call ``testTearDown``: keep the layers'
@@ -997,6 +998,11 @@ class TestResult(unittest.TestResult):
             self._restoreStdStreams()
         unittest.TestResult.addSkip(self, test, reason)
         self.options.output.test_skipped(test, reason)
+        if started:
+            # tearDown and the cleanups (or the rest of the test, after a
+            # skipped subtest) are still to run: what they write belongs to
+            # the test and is shown only if it fails.
+            self._setUpStdStreams()
 
     def addSubTest(self, test, subtest, exc_info):
         if exc_info is None:
